@@ -384,11 +384,16 @@ Qed.
 Lemma gen_guard_first : guard_first post_solve_plan = true.
 Proof. vm_compute. reflexivity. Qed.
 
-(** values and duals of DSL objects are assigned by two functions only, both called from the tail of
-    _solve_with_wrapper (after the guard) and from nowhere else *)
+(** values, duals and LMI entry duals of DSL objects are assigned by these functions only; each of them is called
+    only from _solve_with_wrapper (after the guard, by the plan) or from Wrapper.assign_dual_values, which is itself
+    one of them: nothing else in PEPit can give an object a number *)
+Definition writer_call_ok (c : string * string) : bool :=
+  String.eqb (snd c) "pep.py:_solve_with_wrapper" || String.eqb (snd c) "wrapper.py:assign_dual_values".
 Lemma gen_writers :
-  value_writers = [("pep.py", "PEP._eval_points_and_function_values"); ("wrapper.py", "Wrapper.assign_dual_values")]
-  /\ forallb (fun c => String.eqb (snd c) "pep.py:_solve_with_wrapper") writer_callers = true.
+  value_writers = [("pep.py", "PEP._eval_points_and_function_values"); ("wrapper.py", "Wrapper.assign_dual_values");
+                   ("wrappers/cvxpy_wrapper.py", "CvxpyWrapper._recover_dual_values");
+                   ("wrappers/mosek_wrapper.py", "MosekWrapper._recover_dual_values")]
+  /\ forallb writer_call_ok writer_callers = true.
 Proof. split; [reflexivity|vm_compute; reflexivity]. Qed.
 
 (** ------------------------------------------------------------------ option strings *)
